@@ -6,6 +6,19 @@ package jsonata
 // Comment-only file behind the build tag verif.
 
 // ---------------------------------------------------------------------------
+// jsonata.go: compilation entry points (C08)
+
+//@ func Compile
+//@   props C08
+//@   ensures (r0 != nil && r1 == nil) || (r0 == nil && errOK(r1))
+
+// MustCompile panics (with a string) exactly on the path where Compile returned an error.
+//@ func MustCompile
+//@   props C08
+//@   ensures result != nil
+//@   panics string
+
+// ---------------------------------------------------------------------------
 // Ownership / frame calculus configuration (properties C05, C06, C07)
 //
 // Entry points: their parameters denote memory that exists before the evaluation
